@@ -57,6 +57,13 @@ class SimError(Exception):
         return (SimError, (self.label, self.cls, self.retry_after))
 
 
+class SimTimeoutError(SimError, TimeoutError):
+    """An operation failure that is itself a TimeoutError (socket / driver timeouts are)."""
+
+    def __reduce__(self):
+        return (SimTimeoutError, (self.label, self.cls, self.retry_after))
+
+
 class Val:
     """A successful result (identity matters, so never interned)."""
 
@@ -426,9 +433,9 @@ class Env:
             self.ev("OP_END", k=k, kind="res", cls=step["cls"], obj=r.label, ra=step.get("ra"))
             return r
         if kind == "exc":
-            e = SimError("E" + lab, step["cls"], step.get("ra"))
+            e = (SimTimeoutError if step.get("timeout_type") else SimError)("E" + lab, step["cls"], step.get("ra"))
             cs.objects[e.label] = e
-            self.ev("OP_END", k=k, kind="exc", cls=step["cls"], obj=e.label, ra=step.get("ra"))
+            self.ev("OP_END", k=k, kind="exc", cls=step["cls"], obj=e.label, ra=step.get("ra"), etype=type(e).__name__)
             _raise_here(e)
         if kind == "abort":
             e = AbortRetryError("A" + lab)
